@@ -115,11 +115,14 @@ def rotate3d(n: npt.ArrayLike, theta: float) -> npt.NDArray[np.float32]:
         dtype=np.float32,
     )
 
-    return (
-        np.cos(theta) * np.identity(4)
-        + (1 - np.cos(theta)) * n * n[:, None]
+    rot = (
+        np.cos(theta) * np.identity(3)
+        + (1 - np.cos(theta)) * n[0:3] * n[0:3, None]
         + np.sin(theta) * N
     )
+    tm = np.identity(4)
+    tm[:3, :3] = rot
+    return tm
 
 
 def rotate3d_x(theta: float) -> npt.NDArray[np.float32]:
